@@ -1,12 +1,7 @@
-import Prom.Model.Registry
-/-
-C06 — Registry admission is exact and a failed registration leaves no trace.
-The theorems are about the registry as the code implements it (ids and dimension hashes are
-64-bit values; C15 relates them to the descriptors' structure up to FNV collisions).
--/
+import Prom.Lemmas.C06Aux
+
 namespace Prom.C06
 open Prom
-
 /-- **register_fail_noop** — a refused registration returns the registry *unchanged*
     (false of the pinned code before the F3 repair, which recorded dimension hashes inside the loop). -/
 theorem register_fail_noop (r : Reg) (c : Coll) (e : RErr) (h : (r.register c).2 = .error e) :
@@ -31,87 +26,6 @@ theorem unregister_fail_noop (r : Reg) (c : Coll) (e : RErr) (h : (r.unregister 
   split
   · rename_i hc; simp [hc] at h
   · rfl
-
-/-- the body of the loop after the two registry-level checks, for either outcome of the
-    dimension-hash lookup -/
-theorem known_branch {r : Reg} {d : Desc} {rest : List Desc} {ids : List UInt64} {nd : List (Str × UInt64)}
-    {cid : UInt64} {res : List UInt64 × List (Str × UInt64) × UInt64} (known : Option UInt64)
-    (hk : (match known with
-      | some h => if h != d.dimHash then (.error .msg : Except RErr _) else
-          if ids.contains d.id then .error .msg
-          else regLoop r rest (ids ++ [d.id]) (dimInsert nd d.fqName d.dimHash) (cid + d.id)
-      | none =>
-          if ids.contains d.id then .error .msg
-          else regLoop r rest (ids ++ [d.id]) (dimInsert nd d.fqName d.dimHash) (cid + d.id))
-      = .ok res) :
-    (∀ h, known = some h → h = d.dimHash) ∧ ids.contains d.id = false ∧
-    regLoop r rest (ids ++ [d.id]) (dimInsert nd d.fqName d.dimHash) (cid + d.id) = .ok res := by
-  cases known with
-  | none =>
-    simp only [] at hk
-    by_cases hi : ids.contains d.id = true
-    · rw [if_pos hi] at hk; cases hk
-    · rw [if_neg hi] at hk
-      exact ⟨(by intro h hh; cases hh), (by simpa using hi), hk⟩
-  | some hh =>
-    simp only [] at hk
-    by_cases hne : (hh != d.dimHash) = true
-    · rw [if_pos hne] at hk; cases hk
-    · have heq : hh = d.dimHash := by simpa using hne
-      rw [if_neg hne] at hk
-      by_cases hi : ids.contains d.id = true
-      · rw [if_pos hi] at hk; cases hk
-      · rw [if_neg hi] at hk
-        exact ⟨(by intro h e; cases e; exact heq), (by simpa using hi), hk⟩
-
-/-- what the descriptor loop guarantees on success: every descriptor passed the three checks,
-    the staged ids are the descriptors' ids in order and pairwise distinct, and the collector
-    id is the wrapping sum of them. -/
-theorem regLoop_ok (r : Reg) : ∀ (ds : List Desc) (ids : List UInt64) (nd : List (Str × UInt64)) (cid : UInt64)
-    (ids' : List UInt64) (nd' : List (Str × UInt64)) (cid' : UInt64),
-    regLoop r ds ids nd cid = .ok (ids', nd', cid') →
-      (∀ d ∈ ds, clashesCommon r.labels d = false ∧ r.descIds.contains d.id = false ∧
-        ∀ h, dimLookup r.dimHashes d.fqName = some h → h = d.dimHash) ∧
-      ids' = ids ++ ds.map (·.id) ∧ (ids.Nodup → ids'.Nodup) ∧
-      cid' = (ds.map (·.id)).foldl (· + ·) cid := by
-  intro ds
-  induction ds with
-  | nil =>
-    intro ids nd cid ids' nd' cid' h
-    simp [regLoop] at h
-    obtain ⟨rfl, rfl, rfl⟩ := h
-    simp
-  | cons d rest ih =>
-    intro ids nd cid ids' nd' cid' h
-    unfold regLoop at h
-    by_cases hc : clashesCommon r.labels d = true
-    · rw [if_pos hc] at h; cases h
-    · have hc' : clashesCommon r.labels d = false := by simpa using hc
-      rw [if_neg hc] at h
-      by_cases hid : r.descIds.contains d.id = true
-      · rw [if_pos hid] at h; cases h
-      · have hid' : r.descIds.contains d.id = false := by simpa using hid
-        rw [if_neg hid] at h
-        obtain ⟨hdim, hnot, hrec⟩ := known_branch _ h
-        obtain ⟨h1, h2, h3, h4⟩ := ih _ _ _ _ _ _ hrec
-        refine ⟨?_, ?_, ?_, ?_⟩
-        · intro x hx
-          rcases List.mem_cons.1 hx with rfl | hx
-          · refine ⟨hc', hid', ?_⟩
-            intro hh hl
-            apply hdim
-            simp [hl]
-          · exact h1 x hx
-        · simp [h2]
-        · intro hn
-          apply h3
-          rw [List.nodup_append]
-          refine ⟨hn, by simp, ?_⟩
-          intro a ha b hb e
-          simp at hb; subst hb; subst e
-          simp at hnot
-          exact hnot ha
-        · simp [h4]
 
 /-- **register_ok_sound** — an admitted collector had no descriptor id in use, agreed with every
     recorded dimension hash of its names, clashed with no common label, and had pairwise distinct
